@@ -180,13 +180,15 @@ impl HistCfg {
             c.nu6_3 = kind % 9 != 8;
             c.nu6_3_late = 0;
             c.retention = if c.nu6_3 { Some(rng.gen_range(8..20)) } else { None };
-            c.initial_len = rng.gen_range(120..150);
+            c.initial_len = rng.gen_range(135..150);
             c.empty_on_grid = c.nu6_3;
             c.initial_one_batch = true;
-            if !c.nu6_3 {
+            if c.nu6_3 {
+                // one busy pool: more than 100 of its blocks are checkpointed inside the batch
+                c.pools.truncate(1);
+            } else {
                 c.pools = vec![Pool::Sapling, Pool::Orchard];
             }
-            c.pools.truncate(rng.gen_range(1..=2).max(if c.nu6_3 { 1 } else { 2 }));
             c.max_rewinds = rng.gen_range(0..=1);
             c.out_of_order = false;
             c.steps = rng.gen_range(2..6);
@@ -441,6 +443,10 @@ impl Hist {
             let n_tx = match self.rng.gen_range(0..10) {
                 _ if empty => 0,
                 0..=1 if self.cfg.empty_on_grid => 1,
+                // deep two-pool batches: mostly several transactions (both pools busy), now and then
+                // a single one (a block with commitments in one pool only)
+                0..=2 if self.cfg.initial_one_batch => 1,
+                _ if self.cfg.initial_one_batch => 3,
                 0..=1 => 0,
                 2..=5 => 1,
                 6..=7 => 2,
